@@ -381,6 +381,8 @@ def run(ctx):
         json_cases(ctx, case, bad)
         from checks import c15_codec
         c15_codec.run_part(ctx, case, bad, mlr_rows, P)
+        from checks import c15_fmt
+        c15_fmt.run_part(ctx, case, bad, mlr_rows, P, ref_fmtnum)
     for i in (0, len(meta) // 3, len(meta) // 2, len(meta) - 1):
         ctx.sample(meta[i])
     if not ok:
@@ -399,7 +401,7 @@ def run(ctx):
         if i < 0 or rep >= 5:
             continue
         rep += 1
-        ctx.violation({"broken": "correspondence C15.Harness.chk (model and implementation differ)", "case": meta[i], "term": terms[i][:400]}, found_input=False)
+        ctx.violation({"broken": "correspondence C15.Harness2.chk2 (model and implementation differ on this input)", "case": meta[i], "term": terms[i][:400]}, found_input=True)
     seen = set()
     for b in oracle_bad:
         if b["class"] in seen:
